@@ -34,6 +34,7 @@ func Run(r *ev.Run) {
 	r.RequireAtLeast("search_statements_equal_reference", 80)
 	r.RequireAtLeast("index_pairs_compared", 200)
 	r.RequireAtLeast("tampered_rows_read", 10)
+	r.RequireAtLeast("app_encrypted_writes_to_searchable_columns", 5)
 }
 
 func tablesFor(rng *gen.Rand) []proxyrig.TableSpec {
@@ -83,9 +84,21 @@ func session(r *ev.Run, rng *gen.Rand, sidx int) {
 		}
 		return ok
 	}
+	appEnc := c04.AppEncrypt(w)
+	isSearch := func(c proxyrig.ColSpec) bool { return c.Kind == "search" }
+	insert := func() proxyrig.Step {
+		if rng.Intn(5) == 0 {
+			// the application encrypted the value itself (AcraWriter / AcraTranslator): the index must still be the plaintext's
+			if st, ok := g.AppEncryptedInsert(appEnc, isSearch); ok {
+				r.Count("app_encrypted_writes_to_searchable_columns", 1)
+				return st
+			}
+		}
+		return g.Insert()
+	}
 	pop := 3 + rng.Intn(12)
 	for i := 0; i < pop; i++ {
-		if !step(g.Insert()) {
+		if !step(insert()) {
 			return
 		}
 	}
@@ -101,7 +114,7 @@ func session(r *ev.Run, rng *gen.Rand, sidx int) {
 		case x < 80:
 			st = g.SearchWrite()
 		case x < 90:
-			st = g.Insert()
+			st = insert()
 		default:
 			st = g.Next()
 		}
